@@ -35,6 +35,8 @@ def run(ctx):
             ctx.fail("C08.R", "compute_coverages:value_formats:floor", "expected 4 value formats (2 blocks x norm/raw), found %d" % nfmt, fv.fn["sp"])
         row_rule(ctx, fv, "compute_coverages", None, "C08.R")
         inputs_rule(ctx, fv)
+    # the multiplicities come from the counter and the windows from the k-mer iterator
+    c07.run(dep(ctx, "C08", "C07"))
 
 
 def bin_rule(ctx):
